@@ -15,9 +15,10 @@ Theorem C07_run_recorded : forall x b0 o,
 Proof. exact run_once_inv. Qed.
 Print Assumptions C07_run_recorded.
 
-(* M trace_start (plain rule): everybody starts with budget/n >= 0 and, with multiplicities, the
-   endowments add up to the budget limit *)
-Theorem C07_trace_start_share : forall x, 0 <= mi_budget x -> 0 <= share x.
+(* M trace_start (plain rule): everybody starts with share = (budget - cost(initial allocation))/n >= 0
+   (for a feasible initial allocation) and the multiplicities add up to n, so the endowments add up to
+   budget - cost(initial allocation) -- the budget limit when the initial allocation is empty *)
+Theorem C07_trace_start_share : forall x, tcost (mi_inst x) (mi_init x) <= mi_budget x -> 0 <= share x.
 Proof. exact share_nonneg. Qed.
 Print Assumptions C07_trace_start_share.
 
